@@ -96,5 +96,24 @@ class PAModel(object):
             self.properties[key] = b
         self.__dict__["n"] = len(keep)
 
+    def get_property_arrays(self, all=True, only_real=True):
+        return dict((k, numpy.array(list(v), dtype=object))
+                    for k, v in self.properties.items())
+
+    def add_particles(self, align=True, **props):
+        if not props:
+            return 0
+        for k in props:
+            if k not in self.properties:
+                raise AttributeError("property %s not present" % k)
+        first = list(props)[-1]
+        k = len(props[first]) // self.stride.get(first, 1)
+        start = self.n
+        self.extend(k)
+        for key, vals in props.items():
+            st = self.stride.get(key, 1)
+            self.properties[key][start * st:] = list(vals)
+        return 0
+
     def __bool__(self):
         return True
